@@ -1,7 +1,7 @@
 (* C15 — resolution -> levels, broken page references, grouping of contiguous chunks.
    (keys: CopcKeys, dictionary: CopcDict, termination: CopcTerm, nodes: CopcNodes, points: CopcPoints) *)
 From Coq Require Import String.
-From Coq Require Import ZArith List Bool Lia ZifyBool Arith Permutation.
+From Coq Require Import ZArith List Bool Lia ZifyBool Arith Permutation Sorted.
 From LasV Require Import Lib.Base Gen.GenCopc Model.Copc Proofs.CopcKeys Proofs.CopcDict Proofs.CopcTerm Proofs.CopcNodes Proofs.CopcPoints.
 Import ListNotations.
 Open Scope list_scope.
@@ -273,3 +273,132 @@ Proof. induction l as [|x xs IH]; cbn [sort_off fold_right]; [exact I | apply in
 Theorem grouping_spec : forall (A : Type) (dec : list Z -> Z -> list A) file ns, Forall (node_in_file file) ns ->
   fetch_and_decode dec file ns = flat_map (node_dec dec file) (sort_off ns) /\ ascending (sort_off ns).
 Proof. intros A dec file ns H. split; [exact (fetch_and_decode_correct dec file ns H) | exact (sort_off_ascending ns)]. Qed.
+
+(* ---------- the fetch strategies: buffer filled in offset order (http queue) = buffer filled in request order ---------- *)
+Definition q_le (a b : Z * Z) : Prop := fst a <= fst b.
+Definition q_lt (a b : Z * Z) : Prop := fst a < fst b.
+
+Lemma ins_q_perm : forall q l, Permutation (ins_q q l) (q :: l).
+Proof.
+  intros q l. induction l as [|m r IH]; cbn [ins_q]; [apply Permutation_refl|].
+  destruct (fst q <=? fst m); [apply Permutation_refl|].
+  eapply Permutation_trans; [apply perm_skip; exact IH | apply perm_swap].
+Qed.
+
+Lemma sort_q_perm : forall l, Permutation (sort_q l) l.
+Proof.
+  induction l as [|x xs IH]; cbn [sort_q fold_right]; [constructor|].
+  eapply Permutation_trans; [apply ins_q_perm | apply perm_skip; exact IH].
+Qed.
+
+Lemma ins_q_sorted : forall q l, StronglySorted q_le l -> StronglySorted q_le (ins_q q l).
+Proof.
+  intros q l. induction l as [|m r IH]; intros H; cbn [ins_q].
+  - constructor; constructor.
+  - destruct (fst q <=? fst m) eqn:E.
+    + constructor; [exact H|]. apply StronglySorted_inv in H. destruct H as [_ Hm].
+      constructor; [unfold q_le; lia|].
+      apply Forall_forall. intros y Hy. rewrite Forall_forall in Hm. specialize (Hm y Hy). unfold q_le in *. lia.
+    + apply StronglySorted_inv in H. destruct H as [Hr Hm]. constructor; [apply IH; exact Hr|].
+      apply Forall_forall. intros y Hy. apply (Permutation_in _ (ins_q_perm q r)) in Hy.
+      destruct Hy as [<- | Hy]; [unfold q_le; lia|]. rewrite Forall_forall in Hm. apply Hm. exact Hy.
+Qed.
+
+Lemma sort_q_sorted : forall l, StronglySorted q_le (sort_q l).
+Proof. induction l as [|x xs IH]; cbn [sort_q fold_right]; [constructor | apply ins_q_sorted; exact IH]. Qed.
+
+(* a list sorted by offset that is a permutation of a list with strictly ascending offsets is that list *)
+Lemma sorted_perm_unique : forall l1 l2, StronglySorted q_le l1 -> StronglySorted q_lt l2 -> Permutation l1 l2 -> l1 = l2.
+Proof.
+  induction l1 as [|a r1 IH]; intros l2 H1 H2 HP.
+  - apply Permutation_nil in HP. subst. reflexivity.
+  - destruct l2 as [|b r2]; [apply Permutation_sym, Permutation_nil in HP; discriminate|].
+    apply StronglySorted_inv in H1. destruct H1 as [S1 F1]. apply StronglySorted_inv in H2. destruct H2 as [S2 F2].
+    assert (Hab : a = b).
+    { assert (Ha : In a (b :: r2)) by (apply (Permutation_in _ HP); left; reflexivity).
+      assert (Hb : In b (a :: r1)) by (apply (Permutation_in _ (Permutation_sym HP)); left; reflexivity).
+      destruct Ha as [Ha | Ha]; [symmetry; exact Ha|]. destruct Hb as [Hb | Hb]; [exact Hb|].
+      rewrite Forall_forall in F1, F2. specialize (F1 b Hb). specialize (F2 a Ha). unfold q_le, q_lt in *. lia. }
+    subst b. f_equal. apply IH; [exact S1 | exact S2 | exact (Permutation_cons_inv HP)].
+Qed.
+
+(* the first offsets of the groups ascend strictly when, in offset order, every chunk ends before the next begins *)
+Lemma group_from_strict : forall ns cur_off cur last_end, apart ns -> cur_off <= last_end ->
+  (forall n, In n ns -> last_end <= e_off n) ->
+  Forall (fun gr => cur_off <= fst gr) (group_from cur_off cur last_end ns)
+  /\ StronglySorted (fun a b : Z * list (Z * Z) => fst a < fst b) (group_from cur_off cur last_end ns).
+Proof.
+  induction ns as [|n r IH]; intros cur_off cur last_end Hap Hle Hall; cbn [group_from].
+  - destruct cur as [|x cur']; [split; constructor|]. split; [constructor; [cbn [fst]; lia | constructor] | constructor; constructor].
+  - cbn [apart] in Hap. destruct Hap as [Hs [Hnext Hr]].
+    destruct (e_off n =? last_end) eqn:Eo.
+    + apply Z.eqb_eq in Eo. apply IH; [exact Hr | lia |]. intros m Hm. specialize (Hnext m Hm). lia.
+    + apply Z.eqb_neq in Eo. assert (Hn : last_end <= e_off n) by (apply Hall; left; reflexivity).
+      destruct (IH (e_off n) [(e_cnt n, e_size n)] (e_off n + e_size n) Hr) as [F S]; [lia | intros m Hm; apply Hnext; exact Hm |].
+      split.
+      * constructor; [cbn [fst]; lia|]. eapply Forall_impl; [|exact F]. cbn beta. intros g Hg. lia.
+      * constructor; [exact S|]. eapply Forall_impl; [|exact F]. cbn beta. intros g Hg. cbn [fst]. lia.
+Qed.
+
+Lemma groups_strict : forall ns, apart ns -> StronglySorted (fun a b : Z * list (Z * Z) => fst a < fst b) (groups ns).
+Proof.
+  intros ns Hap. destruct ns as [|n r]; [constructor|]. unfold groups.
+  apply group_from_strict; [exact Hap | lia |].
+  intros m [<- | Hm]; [lia|]. cbn [apart] in Hap. destruct Hap as [Hs [Hnext _]]. specialize (Hnext m Hm). lia.
+Qed.
+
+Lemma byte_queries_strict : forall gs, StronglySorted (fun a b : Z * list (Z * Z) => fst a < fst b) gs ->
+  StronglySorted q_lt (byte_queries gs).
+Proof.
+  induction gs as [|g r IH]; intros H; [constructor|].
+  apply StronglySorted_inv in H. destruct H as [S F]. unfold byte_queries in *. cbn [map]. constructor; [apply IH; exact S|].
+  apply Forall_forall. intros y Hy. apply in_map_iff in Hy. destruct Hy as [g' [<- Hg]].
+  rewrite Forall_forall in F. specialize (F g' Hg). unfold q_lt. cbn [fst]. exact F.
+Qed.
+
+(* the byte queries handed to the fetch strategy are in strictly ascending offset order: whatever order the ranges come
+   back in, sorting them by offset restores the order of the chunk table *)
+Theorem queue_order : forall ns arrival, apart (sort_off ns) ->
+  Permutation arrival (byte_queries (groups (sort_off ns))) -> sort_q arrival = byte_queries (groups (sort_off ns)).
+Proof.
+  intros ns arrival Hap HP. apply sorted_perm_unique.
+  - apply sort_q_sorted.
+  - apply byte_queries_strict, groups_strict. exact Hap.
+  - eapply Permutation_trans; [apply sort_q_perm | exact HP].
+Qed.
+
+Theorem queue_strategy_spec : forall (A : Type) (dec : list Z -> Z -> list A) file ns arrival,
+  Forall (node_in_file file) ns -> apart (sort_off ns) ->
+  Permutation arrival (byte_queries (groups (sort_off ns))) ->
+  fetch_and_decode_queue dec file arrival ns = fetch_and_decode dec file ns
+  /\ fetch_and_decode_queue dec file arrival ns = flat_map (node_dec dec file) (sort_off ns).
+Proof.
+  intros A dec file ns arrival Hns Hap HP.
+  assert (E : fetch_and_decode_queue dec file arrival ns = fetch_and_decode dec file ns).
+  { unfold fetch_and_decode_queue, fetch_and_decode. change gen_queue_sorts_by_offset with true. cbv iota.
+    rewrite (queue_order ns arrival Hap HP). reflexivity. }
+  split; [exact E | rewrite E; apply fetch_and_decode_correct; exact Hns].
+Qed.
+
+Lemma apartb_sound : forall l, apartb l = true -> apart l.
+Proof.
+  induction l as [|x r IH]; intros H; [exact I|]. cbn [apartb] in H.
+  apply andb_true_iff in H. destruct H as [H H3]. apply andb_true_iff in H. destruct H as [H1 H2].
+  cbn [apart]. split; [lia|]. split; [|apply IH; exact H3].
+  intros y Hy. rewrite forallb_forall in H2. specialize (H2 y Hy). lia.
+Qed.
+
+(* ---------- the caller's Bounds object: a query leaves it as it was, so an object used again - on the same file or
+   on another one - gives the answers of a Bounds object of its own ---------- *)
+Lemma query_st_spec : forall s qb, query_st s qb = (qb, query_fresh qb s).
+Proof.
+  intros s qb. unfold query_st, ensure_3d_st, query_fresh, query, result_of. change gen_ensure3d_fresh with true. cbv iota.
+  f_equal. destruct (load_octree _ _ _ _ _); [|reflexivity].
+  destruct qb; reflexivity.
+Qed.
+
+Theorem session_shared_bounds : forall ss qb, session qb ss = (qb, map (query_fresh qb) ss).
+Proof.
+  induction ss as [|s r IH]; intros qb; cbn [session map]; [reflexivity|].
+  rewrite query_st_spec, IH. reflexivity.
+Qed.
